@@ -57,7 +57,9 @@ P, M = 131, 1000003
 NUM_CLIENTS = 3
 # index 2 is never generated: root_dir is not in the property's quantifier, and a root_dir with glob metacharacters
 # defeats tf.io.gfile.glob(base_path + '*') -- see known_findings_proposed/C09.json (replayable)
-ROOTS = ['run', 'run+1.(a)$', 'run[1]']
+# index 3: digits in the path (a checkpoint round must be parsed from the NAME after base_path, not by stripping
+# characters that also occur in the directory name)
+ROOTS = ['run', 'run+1.(a)$', 'run[1]', 'exp_2013_r01']
 
 
 # --------------------------------------------------------------------------
@@ -200,7 +202,8 @@ def _federated_data():
   import fedjax
   import numpy as np
   return fedjax.InMemoryFederatedData(
-      {b'c%02d' % i: {'x': np.arange(1, 3 + i % 3, dtype=np.float32) + i} for i in range(7)})
+      {b'c%02d' % i: {'x': np.arange(1, 3 + i % 3, dtype=np.float32) + i,
+                      'y': (np.arange(2 + i % 3) + i) % 3} for i in range(7)})
 
 
 def _client_digest(clients):
@@ -213,11 +216,12 @@ def _client_digest(clients):
 
 
 class _Sampler:
-  """The real UniformGetClientSampler; reports the round number each sample is drawn for."""
+  """The real UniformGetClientSampler; reports the round number each sample is drawn for.  `real` = an already
+  used sampler object (a caller that keeps its objects alive and calls the experiment again)."""
 
-  def __init__(self, env, seed):
+  def __init__(self, env, seed, real=None):
     import fedjax
-    self._s = fedjax.client_samplers.UniformGetClientSampler(_federated_data(), NUM_CLIENTS, seed)
+    self._s = real or fedjax.client_samplers.UniformGetClientSampler(_federated_data(), NUM_CLIENTS, seed)
     self._env = env
 
   def set_round_num(self, r):
@@ -305,8 +309,11 @@ def _mixed_algorithm():
   import jax.numpy as jnp
 
   def init():
+    import numpy as np
     return {'lr': jnp.asarray(0.5), 'w': jnp.ones((4,), jnp.bfloat16), 'h': jnp.ones((3,), jnp.float16) * 2,
-            'count': jnp.zeros((), jnp.int32), 'key': jax.random.PRNGKey(7)}
+            'count': jnp.zeros((), jnp.int32), 'key': jax.random.PRNGKey(7),
+            'steps': jnp.asarray(0), 'i8': jnp.arange(3, dtype=jnp.int8), 'flag': jnp.zeros((2,), jnp.bool_),
+            'np64': np.array([1.0, 2.0]), 'py': 0, 'empty': jnp.zeros((0,), jnp.float32)}
 
   def apply(state, clients):
     d = _client_digest(clients)
@@ -316,7 +323,9 @@ def _mixed_algorithm():
     key = jax.random.fold_in(state['key'], d % 1000)
     noise = jax.random.uniform(key, h.shape).astype(h.dtype)
     return {'lr': lr * 0.75, 'w': w - lr * g, 'h': h - lr * gh + noise * lr, 'count': state['count'] + 1,
-            'key': key}, {}
+            'key': key, 'steps': state['steps'] + 1, 'i8': state['i8'] + state['steps'] % 3,
+            'flag': jnp.logical_not(state['flag']), 'np64': state['np64'] * 0.5, 'py': state['py'] + 1,
+            'empty': state['empty']}, {}
   if not _MIXED:
     _MIXED['alg'] = fedjax.FederatedAlgorithm(init, apply)
   return _MIXED['alg'], init()
@@ -334,15 +343,45 @@ def _state_summary(state):
           for l in jax.tree_util.tree_leaves(state)]
 
 
+_MODEL = {}
+
+
+def _model():
+  """A tiny real fedjax.Model for the packaged evaluation functions (FedAvg experiment)."""
+  import fedjax
+  import jax.numpy as jnp
+  if not _MODEL:
+    def apply_for_eval(params, batch):
+      return batch['x'][:, None] * params['w'][None, :]
+    _MODEL['m'] = fedjax.Model(
+        init=lambda rng: {'w': jnp.array([0., 2., 4.])},
+        apply_for_train=lambda params, batch, rng: apply_for_eval(params, batch),
+        apply_for_eval=apply_for_eval,
+        train_loss=lambda batch, out: jnp.zeros(out.shape[0]),
+        eval_metrics={'accuracy': fedjax.metrics.Accuracy(), 'loss': fedjax.metrics.CrossEntropyLoss()})
+  return _MODEL['m']
+
+
 def _make_evals(env, case):
+  """(periodic_eval_fn_map, final_eval_fn_map).  case['form'] & 2: the maps are delivered as read-only Mapping
+  views instead of dicts, a TrainClientsEvaluationFn runs among the periodic ones, and a last final evaluation
+  returns no metrics (no .tsv is written for it); with no final evaluation the argument is None."""
+  import types
+  import fedjax
   from fedjax.training import federated_experiment as fe
   algo = case['algo']
+  form = case.get('form', 0)
 
   class Periodic(fe.EvaluationFn):
 
     def __call__(self, state, round_num):
       env.rec.effect(('pe', int(round_num)))
       return {'seen': 1}
+
+  class PeriodicTrain(fe.TrainClientsEvaluationFn):
+
+    def __call__(self, state, round_num, train_clients):
+      return {'clients': len(train_clients)}
 
   class Final(fe.EvaluationFn):
 
@@ -359,8 +398,30 @@ def _make_evals(env, case):
       m['round'] = round_num
       return m
 
-  finals = collections.OrderedDict((f'e{i}', Final(i)) for i in range(case['cfg']['nev']))
-  return {'p0': Periodic()}, finals
+  class NoMetrics(fe.EvaluationFn):
+
+    def __call__(self, state, round_num):
+      return {}
+
+  nev = case['cfg']['nev']
+  finals = collections.OrderedDict((f'e{i}', Final(i)) for i in range(nev))
+  per = collections.OrderedDict(p0=Periodic())
+  if algo == 'fedavg':
+    hp = fedjax.PaddedBatchHParams(batch_size=4)
+    fd = _federated_data()
+    per['p1'] = fe.ModelTrainClientsEvaluationFn(_model(), hp)
+    if nev >= 2:
+      finals['e1'] = fe.ModelFullEvaluationFn(fd, _model(), hp)
+    if nev >= 3:   # its own sampler is seated to the round number the final evaluation is given
+      finals['e2'] = fe.ModelSampleClientsEvaluationFn(
+          fedjax.client_samplers.UniformGetClientSampler(fd, 2, seed=3), _model(), hp)
+  if form & 2:
+    per['p2'] = PeriodicTrain()
+    finals['zz'] = NoMetrics()
+    if nev == 0 and form & 1:
+      return types.MappingProxyType(per), None
+    return types.MappingProxyType(per), types.MappingProxyType(finals)
+  return per, finals
 
 
 def _one_run(case, root, crash, ctx):
@@ -381,10 +442,17 @@ def _one_run(case, root, crash, ctx):
         return new, diag
       alg = type(alg)(alg.init, apply)
     per, fin = _make_evals(env, case)
+    init_sig = _state_bytes(init) if case['algo'] != 'toy' else repr(sorted(init.items())).encode()
+    real_sampler = None
+    if case.get('form', 0) & 1:     # the caller keeps ONE sampler object alive across all calls of the history
+      if 'sampler' not in ctx:
+        import fedjax
+        ctx['sampler'] = fedjax.client_samplers.UniformGetClientSampler(_federated_data(), NUM_CLIENTS, case['seed'])
+      real_sampler = ctx['sampler']
     config = fe.FederatedExperimentConfig(root_dir=root, num_rounds=cfg['R'], checkpoint_frequency=cfg['freq'],
                                           num_checkpoints_to_keep=cfg['keep'], eval_frequency=cfg['evf'])
     try:
-      state = fe.run_federated_experiment(alg, init, _Sampler(env, case['seed']), config, per, fin)
+      state = fe.run_federated_experiment(alg, init, _Sampler(env, case['seed'], real_sampler), config, per, fin)
       out['state'] = _canon_state(case, state, ctx)
       out['state_bytes'] = _state_bytes(state).hex() if case['algo'] != 'toy' else None
       out['state_summary'] = _state_summary(state) if case['algo'] != 'toy' else None
@@ -392,6 +460,8 @@ def _one_run(case, root, crash, ctx):
       out['crashed'] = True
     except Exception as ex:  # pylint: disable=broad-except
       out['error'] = type(ex).__name__
+    after_sig = _state_bytes(init) if case['algo'] != 'toy' else repr(sorted(init.items())).encode()
+    env.flags['init_state_changed'] = bool(after_sig != init_sig)
   out['trace'] = [list(e) for e in rec.trace]
   out['raw_writes'] = {str(k): v for k, v in rec.raw_writes.items()}
   out['flags'] = env.flags
@@ -444,6 +514,10 @@ def _decode(name, data, ctx):
         return ['w', 1, int(d['idx'])] + _abstract(bytes.fromhex(d['w']), ctx) + [int(d['round'])]
     except Exception:  # pylint: disable=broad-except
       return ['t']
+    # a packaged evaluation function: complete iff byte-equal to the uninterrupted run's file, which holds the
+    # metrics of (state after R rounds, R)
+    if ctx.get('ref_tsv', {}).get(name) == data.hex() and ctx.get('R') is not None:
+      return ['w', 1, int(m.group(1)), ctx['R'], 0, ctx['R']]
     return ['t']
   return ['w', 2, len(data)]
 
@@ -462,7 +536,7 @@ _REF = {}
 
 def _reference(case):
   """The uninterrupted run of the same experiment call on a fresh directory."""
-  key = (case['algo'], tuple(sorted(case['cfg'].items())), case['seed'], case['root'])
+  key = (case['algo'], tuple(sorted(case['cfg'].items())), case['seed'], case['root'], case.get('form', 0))
   if key in _REF:
     return _REF[key]
   base = tempfile.mkdtemp(prefix='C09-ref-')
@@ -488,10 +562,90 @@ def _reference(case):
   return ref
 
 
+# --------------------------------------------------------------------------
+# the public checkpoint functions called directly (positional / keyword / default arguments)
+
+def _run_direct(case):
+  """ops: ['save', round, keep | None, form] | ['load'];  form 0 positional, 1 keywords, 2 defaults where possible"""
+  from fedjax.training import checkpoint as ck
+  base = tempfile.mkdtemp(prefix='C09-direct-')
+  obs = []
+  try:
+    root = os.path.join(base, ROOTS[case['root']])
+    os.makedirs(root)
+    for n, op in enumerate(case['ops']):
+      r = {'op': op, 'error': None, 'loaded': None}
+      try:
+        if op[0] == 'save':
+          _, rnd, keep, form = op
+          state = {'round': rnd, 'n': n}
+          if form == 1:
+            kw = {'round_num': rnd}
+            if keep is not None:
+              kw['keep'] = keep
+            ck.save_checkpoint(root_dir=root, state=state, **kw)
+          elif keep is None:
+            ck.save_checkpoint(root, state) if (form == 2 and rnd == 0) else ck.save_checkpoint(root, state, rnd)
+          else:
+            ck.save_checkpoint(root, state, rnd, keep)
+        else:
+          got = ck.load_latest_checkpoint(root)
+          r['loaded'] = None if got is None else [got[0].get('round'), got[0].get('n'), int(got[1])]
+      except Exception as ex:  # pylint: disable=broad-except
+        r['error'] = type(ex).__name__
+      r['files'] = crashfs.listing(root)
+      obs.append(r)
+  finally:
+    shutil.rmtree(base, ignore_errors=True)
+  return {'direct': obs}
+
+
+def _oracle_direct(case, obs):
+  out = []
+  kept = {}          # round -> op index of the save that produced the visible file
+  for n, r in enumerate(obs['direct']):
+    op = r['op']
+    if r['error']:
+      out.append(('direct-call-raises', f'{op} raised {r["error"]}'))
+      break
+    if op[0] == 'save':
+      _, rnd, keep, _ = op
+      keep = 1 if keep is None else keep
+      kept[rnd] = n
+      for old in sorted(kept)[:-keep]:
+        del kept[old]
+      want = ['checkpoint_%08d' % k for k in sorted(kept)]
+      if r['files'] != want:
+        out.append(('direct-retention', f'after {op} the directory holds {r["files"]}, the {keep} numerically newest '
+                    f'of all saved rounds are {want}'))
+        break
+    else:
+      want = None if not kept else [max(kept), kept[max(kept)], max(kept)]
+      if r['loaded'] != want:
+        out.append(('direct-newest', f'load_latest_checkpoint returned {r["loaded"]}, expected {want} (state round, '
+                    'saving op, reported round)'))
+        break
+  return out
+
+
+def _direct_cases(rng, n):
+  rounds = [0, 1, 2, 9, 10, 11, 99, 100, 101, 2013, 12345678, 99999999]
+  for i in range(n):
+    ops = []
+    keep = rng.choice([None, 1, 2, 3])
+    for _ in range(rng.randrange(1, 7)):
+      ops.append(['save', rng.choice(rounds), keep if rng.random() < 0.8 else rng.choice([None, 1, 2, 3]), i % 3])
+      if rng.random() < 0.5:
+        ops.append(['load'])
+    yield {'algo': 'direct', 'root': [0, 1, 3][i % 3], 'ops': [['load']] + ops + [['load']]}
+
+
 def run(case):
   import fedjax  # noqa: F401  pylint: disable=unused-import
+  if case['algo'] == 'direct':
+    return _run_direct(case)
   ref = _reference(case)
-  ctx = {'ref_states': ref['ref_states']}
+  ctx = {'ref_states': ref['ref_states'], 'ref_tsv': ref['tsv'], 'R': case['cfg']['R']}
   base = tempfile.mkdtemp(prefix='C09-')
   runs = []
   try:
@@ -514,6 +668,8 @@ def run(case):
 # the property, judged on the observation alone
 
 def oracle(case, obs):
+  if case['algo'] == 'direct':
+    return _oracle_direct(case, obs)
   out = []
   cfg = case['cfg']
   ref = obs['ref']
@@ -533,6 +689,8 @@ def oracle(case, obs):
                   'left by a crash'))
     elif r['error'] is not None:
       out.append(('rerun-raises', f'run {i}: re-running the experiment call raised {r["error"]}'))
+    if fl.get('init_state_changed'):
+      out.append(('init-state-mutated', f'run {i}: the caller\'s init_state changed during the call'))
     if any(n > cfg['keep'] for n in fl['retention']):
       out.append(('retention-exceeded', f'run {i}: {max(fl["retention"])} checkpoint files right after a completed '
                   f'save, num_checkpoints_to_keep = {cfg["keep"]}'))
@@ -616,6 +774,8 @@ def _odir(d):
 
 
 def encode(case, obs):
+  if case['algo'] == 'direct':
+    return None
   if obs['ref']['error'] is not None or any(r['error'] is not None for r in obs['runs']):
     return None
   cfg = case['cfg']
@@ -644,7 +804,7 @@ def _probe(case):
     ref = _reference(case)
     return ref['trace'], ref['raw_writes']
   ref = _reference(case)
-  ctx = {'ref_states': ref['ref_states']}
+  ctx = {'ref_states': ref['ref_states'], 'ref_tsv': ref['tsv'], 'R': case['cfg']['R']}
   base = tempfile.mkdtemp(prefix='C09-probe-')
   try:
     root = os.path.join(base, ROOTS[case['root']])
@@ -706,7 +866,8 @@ def generate(tier, rng):
     return
   full = tier == 'thorough'
   for cfg, i in grid:
-    base = {'algo': 'toy', 'cfg': cfg, 'root': 1 if i % 5 == 3 else 0, 'seed': 11 + i % 3, 'crashes': []}
+    base = {'algo': 'toy', 'cfg': cfg, 'root': 1 if i % 5 == 3 else 3 if i % 5 == 1 else 0, 'seed': [11, 0, 12][i % 3],
+            'form': i % 4, 'crashes': []}
     yield base
     tr, rw = _probe(base)
     pts = _crash_points(tr, rw, full, i)
@@ -716,7 +877,7 @@ def generate(tier, rng):
     if full:
       firsts = pts if cfg['R'] <= 3 and cfg['evf'] == 0 else rng.sample(pts, min(len(pts), 3))
     else:
-      firsts = rng.sample(pts, min(len(pts), 3)) if i % 4 == 0 else []
+      firsts = rng.sample(pts, min(len(pts), 3)) if i % 6 == 0 else []
     for p1 in firsts:
       tr2, rw2 = _probe({**base, 'crashes': [p1]})
       pts2 = _crash_points(tr2, rw2, False, i + 1)
@@ -727,11 +888,12 @@ def generate(tier, rng):
           tr3, rw3 = _probe({**base, 'crashes': [p1, p2]})
           p3 = rng.choice(_crash_points(tr3, rw3, False, i + 2))
           yield {**base, 'crashes': [p1, p2, p3]}
+  yield from _direct_cases(rng, 150 if full else 40)
   # mixed-kind JAX pytree state (weak scalar, bfloat16 / float16, int32, PRNG key): every crash history must end in a
   # state equal to the uninterrupted one by leaf type, dtype, weak_type and bits
   mixed = [_cfg(3, 1, 1, 0, 1), _cfg(4, 2, 2, 1, 1)] + ([_cfg(5, 3, 1, 2, 2), _cfg(2, 1, 3, 0, 1)] if full else [])
   for cfg in mixed:
-    base = {'algo': 'mixed', 'cfg': cfg, 'root': 0, 'seed': 7, 'crashes': []}
+    base = {'algo': 'mixed', 'cfg': cfg, 'root': 3, 'seed': 7, 'form': 3, 'crashes': []}
     yield base
     tr, rw = _probe(base)
     pts = _crash_points(tr, rw, False, 0)
@@ -741,9 +903,9 @@ def generate(tier, rng):
       tr2, rw2 = _probe({**base, 'crashes': [p1]})
       yield {**base, 'crashes': [p1, rng.choice(_crash_points(tr2, rw2, False, 1))]}
   # FedAvg on a tiny in-memory dataset
-  favg = [_cfg(3, 2, 1, 1, 1)] + ([_cfg(4, 1, 2, 2, 2), _cfg(5, 3, 1, 0, 1)] if full else [])
+  favg = [_cfg(3, 2, 1, 1, 3)] + ([_cfg(4, 1, 2, 2, 2), _cfg(5, 3, 1, 0, 1)] if full else [])
   for cfg in favg:
-    base = {'algo': 'fedavg', 'cfg': cfg, 'root': 0, 'seed': 5, 'crashes': []}
+    base = {'algo': 'fedavg', 'cfg': cfg, 'root': 0, 'seed': 5, 'form': 1, 'crashes': []}
     yield base
     tr, rw = _probe(base)
     pts = _crash_points(tr, rw, False, 0)
@@ -755,10 +917,14 @@ def generate(tier, rng):
 
 
 def nontrivial(case, obs):
+  if case['algo'] == 'direct':
+    return len(case['ops']) > 2
   return case['cfg']['R'] > 0 and any(r['crashed'] for r in obs['runs'])
 
 
 def describe(case, obs):
+  if case['algo'] == 'direct':
+    return {'algo': 'direct', 'ops': len(case['ops'])}
   cfg = case['cfg']
   return {'algo': case['algo'], 'R': cfg['R'], 'freq': cfg['freq'], 'keep': cfg['keep'], 'evf': cfg['evf'],
           'nev': cfg['nev'], 'depth': len(case['crashes']),
@@ -768,6 +934,10 @@ def describe(case, obs):
 
 
 def shrink(case):
+  if case['algo'] == 'direct':
+    for j in range(len(case['ops'])):
+      yield {**case, 'ops': case['ops'][:j] + case['ops'][j + 1:]}
+    return
   if len(case['crashes']) > 1:
     for j in range(len(case['crashes'])):
       yield {**case, 'crashes': case['crashes'][:j] + case['crashes'][j + 1:]}
